@@ -250,7 +250,7 @@ def equivariance_defect(apply, xb, grp, D, flags, lead=1, shifts_list=()):
     return worst, moved, nonzero
 
 
-def model_equivariance(model, xb, in_order, grp, D, flags, monitor=True):
+def model_equivariance(model, xb, in_order, grp, D, flags, monitor=True, layer_tol=2e-3):
     """worst relative defect of model(g.x) vs g.model(x) over grp, at the output and (lock step) at every layer.
     Returns dict(e, where, g, t, moved, nonzero)."""
     def forward(b, fl):
@@ -265,11 +265,15 @@ def model_equivariance(model, xb, in_order, grp, D, flags, monitor=True):
         return np_blocks(y), []
 
     y0, tr0 = forward(xb, flags)
-    w = {"e": 0.0, "where": None, "g": None, "t": None, "moved": False, "nonzero": False}
+    # e/g/t: worst END-TO-END defect (decides); where: first intermediate layer whose defect exceeds layer_tol (naming only)
+    w = {"e": 0.0, "where": "output", "g": None, "t": None, "moved": False, "nonzero": False, "layer_e": 0.0}
 
     def upd(e, where, g, t):
-        if e > w["e"]:
-            w.update(e=e, where=where, g=g, t=t)
+        if where == "output":
+            if e > w["e"]:
+                w.update(e=e, g=g, t=t)
+        elif e > layer_tol and (w["where"] == "output" or int(where[4:].split(":")[0]) < int(w["where"][4:].split(":")[0])):
+            w.update(where=where, layer_e=e)
 
     for g in grp:
         yg, trg = forward(act_blocks(xb, g, D), perm_axes(flags, g))
@@ -284,6 +288,4 @@ def model_equivariance(model, xb, in_order, grp, D, flags, monitor=True):
                 e0 = act_blocks(b0, g, D)
                 for t in e0:
                     upd(relerr(b1[t], e0[t]) if t in b1 else np.inf, f"step{i}:{n0}", g, t)
-        else:
-            upd(np.inf, "trace-length", g, None)
     return w
